@@ -98,6 +98,8 @@ uint32_t       stalls_fired();    // decisions where the stall window excluded a
 uint32_t       blocked_fired();   // lock requests that found the mutex held
 // Calibration: a fixed single-threaded workload run once per process marks the basic blocks of
 // the container code that execute while the container's own mutex is held.
+void           call_enter(); // the calling thread enters / leaves one call into the container (adapters only)
+void           call_leave();
 void           calib_begin(const void* obj_lo, const void* obj_hi);
 void           calib_end();
 uint32_t       calib_locked_blocks();
